@@ -641,6 +641,38 @@ def scratch_order_harness(ctx):
     ctx.prove("ABI._scratch_registers/same-answer-every-time", z3.BoolVal(list(again) == list(regs)))
 
 
+def allocation_repeatable_harness(ctx):
+    """the ABI objects are process-wide singletons: register allocation and frame generation for a patch are functions of the patch's
+    constraints alone -- the same request made again (after other requests) gives the same registers and the same prologue / epilogue"""
+    from gtirb_rewriting import abi as ABIM
+    from gtirb_rewriting.patch import Constraints
+    keys = sorted(ABIM._ABIS, key=lambda k: (k[0].name, k[1].name))
+    isa, ff = keys[ctx.choose(len(keys), "abi")]
+    abi = ABIM._ABIS[(isa, ff)]
+    variants = [dict(), dict(clobbers_flags=True), dict(scratch_registers=2), dict(clobbers_flags=True, scratch_registers=1), dict(preserve_caller_saved_registers=True)]
+    kw = variants[ctx.choose(len(variants), "constraints")]
+    if isa.name == "MIPS32" and kw.get("clobbers_flags"):
+        return                                     # no flags on MIPS32
+
+    def frame():
+        cons = Constraints(**kw)
+        use = abi._allocate_patch_registers(cons)
+        snap = ([r.name for r in use.clobbered_registers], [r.name for r in use.scratch_registers], [r.name for r in use.available_registers])
+        pro, epi, adj = abi._create_prologue_and_epilogue(cons, use, False)
+        return (snap, [s_.code for s_ in pro], [s_.code for s_ in epi], adj)
+    first = frame()
+    for other in variants:                          # other requests in between
+        try:
+            c2 = Constraints(**other)
+            abi._create_prologue_and_epilogue(c2, abi._allocate_patch_registers(c2), False)
+        except Exception:      # noqa
+            pass
+    again = [frame() for _ in range(3)]
+    ctx.cover("enumerated")
+    ctx.prove("ABI/allocation-and-frame-are-a-function-of-the-constraints-alone", z3.BoolVal(all(a == first for a in again)),
+              note="%s/%s %s: first %s, later %s" % (isa.name, ff.name, kw, first[0], [a[0] for a in again if a != first][:1]))
+
+
 def c11_bounded(tier, seed):
     def run():
         br = BResult()
@@ -653,7 +685,7 @@ def c11_bounded(tier, seed):
         results = []
         code = _CHILD % {"root": ROOT, "seed": seed, "kinds": kinds, "stride": stride}
         py = os.path.join(ROOT, ".venv", "bin", "python")
-        procs = [subprocess.Popen([py, "-c", code], stdout=subprocess.PIPE, stderr=subprocess.PIPE, env=dict(os.environ, PYTHONHASHSEED=str(hs), PYTHONPATH=ROOT)) for hs in seeds]
+        procs = [subprocess.Popen([py, "-c", code], stdout=subprocess.PIPE, stderr=subprocess.PIPE, env=dict(os.environ, PYTHONHASHSEED=str(hs), PYTHONPATH=os.pathsep.join([ROOT] + [p_ for p_ in os.environ.get("PYTHONPATH", "").split(os.pathsep) if p_ and p_ != ROOT]))) for hs in seeds]
         for hs, p in zip(seeds, procs):
             o, e = p.communicate()
             if p.returncode != 0:
@@ -858,5 +890,6 @@ def jobs_c11(tier="quick", seed=0):
     # map is exactly the requests as given" (a chain A->B, B->C stays a chain in either order), discharged under C18 and here
     from . import c18
     yield Job("C11/retarget-request-history", c18.history_harness, kind="E", func="gtirb_rewriting.rewriting:RewritingContext.retarget_symbol_uses")
+    yield Job("C11/allocation-repeatable", allocation_repeatable_harness, kind="E", func="gtirb_rewriting.abi:ABI._allocate_patch_registers/_create_prologue_and_epilogue (singletons keep no state)", expect_cover=("enumerated",))
     yield Job("C11/scratch-register-order", scratch_order_harness, kind="E", func="gtirb_rewriting.abi:ABI._scratch_registers (all registered ABIs)", expect_cover=("enumerated",))
     yield Job("C11/hash-seeds-bounded", c11_bounded(tier, seed), kind="B", func="gtirb_rewriting.rewriting:RewritingContext.apply")
